@@ -552,6 +552,71 @@ func init() {
 		}
 		return map[string]interface{}{"hits": hits, "ok": ok, "throttled": throttled, "other": other}
 	})
+
+	// c20.http_hist: a history over the registry HTTPBreakers and one local server: {"t":"set","key":"host"|"uri:<path>","limit":n}
+	// registers a fresh breaker of n per hour under the host (host:port) or under one exact URI, {"t":"del","key":...} removes the
+	// entry, {"t":"get","path":p} sends one GET; answer per step: "ok" (reached the server), "throttled" (status 430), "other"
+	register("c20.http_hist", func(c map[string]interface{}) interface{} {
+		ctx := c20ctx()
+		var hits int64
+		srv := httptest.NewServer(http.HandlerFunc(func(w http.ResponseWriter, r *http.Request) {
+			atomic.AddInt64(&hits, 1)
+			w.Write([]byte("ok"))
+		}))
+		defer srv.Close()
+		httpMu.Lock()
+		defer httpMu.Unlock()
+		host := strings.TrimPrefix(srv.URL, "http://")
+		keyOf := func(k string) string {
+			if strings.HasPrefix(k, "uri:") {
+				return srv.URL + strings.TrimPrefix(k, "uri:")
+			}
+			return host
+		}
+		used := map[string]bool{}
+		defer func() {
+			for k := range used {
+				delete(core.HTTPBreakers, k)
+			}
+		}()
+		outs := make([]interface{}, 0)
+		steps, _ := c["steps"].([]interface{})
+		for _, x := range steps {
+			st, _ := x.(map[string]interface{})
+			t, _ := st["t"].(string)
+			k, _ := st["key"].(string)
+			switch t {
+			case "set":
+				b, err := core.NewOutboundBreaker(c20num(st, "limit"), time.Hour)
+				if err != nil {
+					outs = append(outs, "new:"+err.Error())
+					continue
+				}
+				core.HTTPBreakers[keyOf(k)] = b
+				used[keyOf(k)] = true
+				outs = append(outs, "set")
+			case "del":
+				delete(core.HTTPBreakers, keyOf(k))
+				outs = append(outs, "del")
+			case "get":
+				path, _ := st["path"].(string)
+				before := atomic.LoadInt64(&hits)
+				res, err := core.HTTPRequest{Method: "GET", URI: srv.URL + path}.Do(ctx)
+				reached := atomic.LoadInt64(&hits) - before
+				switch {
+				case err == core.Throttled && res != nil && res.Status == 430 && reached == 0:
+					outs = append(outs, "throttled")
+				case err == nil && res != nil && res.Status == 200 && reached == 1:
+					outs = append(outs, "ok")
+				default:
+					outs = append(outs, fmt.Sprintf("other:%v reached=%d", err, reached))
+				}
+			default:
+				outs = append(outs, "bad-step")
+			}
+		}
+		return map[string]interface{}{"outs": outs}
+	})
 }
 
 var httpMu sync.Mutex
